@@ -8,6 +8,7 @@ import (
 	"fmt"
 	"os"
 	"path/filepath"
+	"strings"
 	"testing"
 
 	"verif/harness/h"
@@ -25,6 +26,9 @@ type Spec struct {
 	Old     h.Tree `json:"old,omitempty"`
 	Comp    h.Comp `json:"comp"`
 	Jitter  []byte `json:"jitter,omitempty"` // diff-time producer reads the source through short-reading, yielding readers
+	// SingleFile: the new build is not a directory but one regular file (New has exactly one file entry); it is
+	// walked, signed, diffed and validated through its path, as butler does with single-file builds
+	SingleFile bool `json:"single_file,omitempty"`
 }
 
 // refWeak is the weak hash written from the format description:
@@ -78,6 +82,10 @@ func check(s Spec) h.Result {
 		return h.Result{Skip: "cannot write new tree"}
 	}
 	cl := []string{"old:" + s.OldKind, "comp:" + []string{"none", "brotli", "gzip"}[s.Comp.Algo]}
+	if s.SingleFile && len(s.New) == 1 && s.New[0].Kind == h.KFile && !strings.Contains(s.New[0].Path, "/") {
+		nd = filepath.Join(nd, s.New[0].Path)
+		cl = append(cl, "build:single-file")
+	}
 	var dopts *h.DiffOpts
 	if len(s.Jitter) > 0 {
 		cl = append(cl, "producer:diff-time-with-short-reads")
@@ -246,6 +254,11 @@ var prop = h.Prop[Spec]{
 		}
 		if rapid.IntRange(0, 2).Draw(t, "jitter") == 0 {
 			s.Jitter = rapid.SliceOfN(rapid.Byte(), 1, 16).Draw(t, "jitter-bytes")
+		}
+		if rapid.IntRange(0, 7).Draw(t, "single-file-build") == 0 {
+			s.SingleFile = true
+			s.New = h.Tree{{Path: rapid.SampledFrom([]string{"a", "game.bin", "a..b", "A"}).Draw(t, "single-name"), Kind: h.KFile,
+				C: h.GenContent(t, "single", h.GenOpts{})}}
 		}
 		return s
 	},
